@@ -732,6 +732,17 @@ func (c *EvalCtx) evalCall(e *Expr) TVal {
 		}
 		c.errf("implements: cannot resolve type")
 		return c.mk("false", sBool, tb)
+	case "strcontains", "strhasprefix", "strhassuffix":
+		// the predicates the engine uses for strings.Contains / HasPrefix / HasSuffix
+		sv, sub := c.eval(e.Args[0]), c.eval(e.Args[1])
+		n := map[string]string{"strcontains": "str_Contains", "strhasprefix": "str_HasPrefix", "strhassuffix": "str_HasSuffix"}[e.Name]
+		w.declFun(n, fmt.Sprintf("(declare-fun %s (Int Int) Bool)", n))
+		return c.mk("("+n+" "+sv.T+" "+sub.T+")", sBool, tb)
+	case "errtext":
+		// errtext(err): what err.Error() returns
+		v := c.eval(e.Args[0])
+		w.declFun("err_text", "(declare-fun err_text (Iface) Int)")
+		return c.mk("(err_text "+v.T+")", sInt, types.Typ[types.String])
 	case "u64":
 		// u64(x): x reduced to the 64-bit unsigned range, as Go's uint64 arithmetic does
 		v := c.eval(e.Args[0])
